@@ -96,6 +96,16 @@ func reachFromBlock(b *ssa.BasicBlock, target, avoid ipred) ssa.Instruction {
 	return nil
 }
 
+// reachFromBlockUp: reachFromBlock continuing in the callers.
+func reachFromBlockUp(b *ssa.BasicBlock, target, avoid ipred) ssa.Instruction {
+	s := newIPSearch(target, avoid)
+	s.up = true
+	if s.scan(b, 0, nil) {
+		return s.found
+	}
+	return nil
+}
+
 func isReturn(in ssa.Instruction) bool { _, ok := in.(*ssa.Return); return ok }
 
 // mustPrecede: every path from fn's entry to `b` passes through an instruction in A
